@@ -45,5 +45,103 @@ Theorem C09_abort_keeps_revision : forall d tabs ops,
 Proof. intros. now apply abort_restores_root. Qed.
 Print Assumptions C09_abort_keeps_revision.
 
+(* ==== history level (Table/Inv.v .. Inv6.v) ======================================================= *)
+From SV Require Import KeyEnc.Model Table.InvDefs Table.Inv Table.Inv2 Table.Inv3 Table.Inv4 Table.Inv6.
+
+(* the core invariant TInv (Table/InvDefs.v: sorted indexes; revision index = live objects keyed by
+   revision; graveyard indexes likewise; all revisions in 1..t_rev and pairwise distinct) holds for the
+   empty table and is preserved by every table transformer while revisions stay below 2^64 *)
+Theorem C09_invariant_of_table_ops :
+  TInv empty_table /\
+  (forall g m p t, TInv t -> rev_bound (fst (modify g m p t)) -> TInv (fst (modify g m p t))) /\
+  (forall g id t, TInv t -> rev_bound (fst (delete g id t)) -> TInv (fst (delete g id t))) /\
+  (forall t, TInv t -> rev_bound (delete_all t) -> TInv (delete_all t)) /\
+  (forall keys t, TInv t -> rev_bound t -> TInv (gc_apply_table keys t)) /\
+  (forall t trk ini, TInv t -> TInv (set_meta t trk ini)).
+Proof. exact TInv_table_ops. Qed.
+Print Assumptions C09_invariant_of_table_ops.
+
+(* ... hence by every step of the database model, for every table value held anywhere (root, open
+   transaction, its oldRoot, snapshots), and along every run from the initial state *)
+Theorem C09_invariant_of_histories :
+  (forall n, all_tables TInv (init_db n)) /\
+  (forall d o, all_tables TInv d -> all_tables rev_bound (fst (step d o)) -> all_tables TInv (fst (step d o))) /\
+  (forall ops d, all_tables TInv d -> run_bounded d ops -> all_tables TInv (fst (run d ops))).
+Proof. exact DInv_histories. Qed.
+Print Assumptions C09_invariant_of_histories.
+
+(* in every table reachable along a history: live objects have pairwise distinct revisions, so have
+   retained-deleted ones, no live and deleted object share one, and every revision is in 1..t_rev
+   (the table revision is an upper bound of all revisions assigned) *)
+Theorem C09_reachable_revisions_unique_and_bounded : forall n ops t,
+  run_bounded (init_db n) ops -> in_db (fst (run (init_db n) ops)) t ->
+  (forall o1 o2, live t o1 -> live t o2 -> o_rev o1 = o_rev o2 -> o1 = o2) /\
+  (forall o, live t o \/ dead t o -> 1 <= o_rev o <= t_rev t) /\
+  (forall o1 o2, dead t o1 -> dead t o2 -> o_rev o1 = o_rev o2 -> o1 = o2) /\
+  (forall o1 o2, live t o1 -> dead t o2 -> o_rev o1 <> o_rev o2).
+Proof. exact reachable_rev_facts. Qed.
+Print Assumptions C09_reachable_revisions_unique_and_bounded.
+
+(* a successful Insert / Modify / CompareAndSwap in a write transaction: the object read back in the
+   same transaction carries exactly the new table revision = old table revision + 1 *)
+Theorem C09_txn_write_gets_table_revision : forall d o tab g m p es old t prev,
+  write_op o = Some (tab, g, m, p) ->
+  d_txn d = Some (es, old) -> nth_error es tab = Some (t, true) ->
+  snd (step d o) = OutWrite prev EOk ->
+  let d' := fst (step d o) in
+  let obj := new_object m p t in
+  prev = om_get (p_id p) (t_primary t) /\
+  o_rev obj = t_rev t + 1 /\
+  snd (step d' (OQuery STxn tab (QGet IPrimary (p_id p)))) = OutGet (Some obj) /\
+  snd (step d' (OQuery STxn tab QRev)) = OutNum (o_rev obj) /\
+  d_root d' = d_root d.
+Proof. exact read_own_write. Qed.
+Print Assumptions C09_txn_write_gets_table_revision.
+
+(* the committed revision of a table never decreases in one step (TxnInv: Table/Inv3.v, an invariant
+   of all histories) ... *)
+Theorem C09_committed_revision_step : forall d o i t t', TxnInv d ->
+  nth_error (d_root d) i = Some t -> nth_error (d_root (fst (step d o))) i = Some t' -> t_rev t <= t_rev t'.
+Proof. exact root_rev_mono_step. Qed.
+Print Assumptions C09_committed_revision_step.
+
+(* ... and along any history from the initial state, split anywhere: every committed table persists
+   and its revision is monotone (aborts, snapshots, change iterators, collection included) *)
+Theorem C09_committed_revision_never_decreases : forall n ops1 ops2 i t,
+  let d1 := fst (run (init_db n) ops1) in
+  nth_error (d_root d1) i = Some t ->
+  exists t', nth_error (d_root (fst (run d1 ops2))) i = Some t' /\ t_rev t <= t_rev t'.
+Proof. exact committed_revision_monotone. Qed.
+Print Assumptions C09_committed_revision_never_decreases.
+
+(* LowerBound(ByRevision(r)) = the live objects with revision >= r, each once, in strictly ascending
+   revision order (rev_ascending: Table/Inv3.v) *)
+Theorem C09_lower_bound_by_revision : forall t r, TInv t -> rev_bound t -> r < 18446744073709551616 ->
+  q_lower_bound IRevision (rev_key r) t = vals (om_lower_bound (rev_key r) (t_revidx t)) /\
+  rev_ascending (q_lower_bound IRevision (rev_key r) t) /\
+  (forall o, In o (q_lower_bound IRevision (rev_key r) t) <-> (live t o /\ r <= o_rev o)).
+Proof. exact lower_bound_revision. Qed.
+Print Assumptions C09_lower_bound_by_revision.
+
+(* a successful Delete / CompareAndDelete on a table with a delete tracker is assigned the next table
+   revision too: the retained object carries exactly the new table revision in both graveyard indexes *)
+Theorem C09_delete_retains_at_table_revision : forall g id t o, om_get id (t_primary t) = Some o ->
+  (0 <? g) && negb (o_rev o =? g) = false -> t_trackers t <> [] ->
+  let t' := fst (delete g id t) in
+  t_rev t' = t_rev t + 1 /\ om_get id (t_grave t') = Some (mkO (o_data o) (t_rev t')) /\
+  om_get (rev_key (t_rev t')) (t_graverev t') = Some (mkO (o_data o) (t_rev t')).
+Proof. exact delete_retains_at_table_revision. Qed.
+Print Assumptions C09_delete_retains_at_table_revision.
+
 Example C09_nonvacuous : t_rev (fst (modify 0 false (mkP [97] 1 [] [] [] []) empty_table)) = 1.
 Proof. reflexivity. Qed.
+
+Example C09_history_nonvacuous :
+  let ops := [OBegin [0%nat]; OInsert 0 (mkP [97] 1 [] [] [] []); OInsert 0 (mkP [98] 2 [] [] [] []);
+              ODelete 0 [97]; OCommit 0] in
+  run_bounded (init_db 1) ops /\
+  match d_root (fst (run (init_db 1) ops)) with
+  | [t] => t_rev t = 3 /\ map o_rev (q_lower_bound IRevision (rev_key 1) t) = [2]
+  | _ => False
+  end.
+Proof. split; [apply run_bounded_b_ok; vm_compute; reflexivity|vm_compute; auto]. Qed.
